@@ -88,9 +88,9 @@ class Check:
                 for via in ('chain', 'unimock'):
                     texts.append(f"scenario p{k}_{via}\nvia {via}\npar threads={th} per={per} pre={pre}\nend\n")
             for n in ([1, 2, 3, 7] if tier == 'quick' else [1, 2, 3, 7, 50, 400]):
-                for end in (0, 1, 2):
+                for end in (0, 1, 2, 3):
                     texts.append(f"scenario helper_{n}_{end}\nvia unimock\nhelper n={n} end={end}\nend\n")
-            for end in (0, 1, 2):
+            for end in (0, 1, 2, 3, 4):
                 texts.append(f"scenario returnsdrop_{end}\nvia unimock\nreturnsdrop end={end}\nend\n")
             for n, cl in [(1, 0), (3, 0), (3, 1), (6, 1)]:
                 texts.append(f"scenario unwinddrop_{n}_{cl}\nvia unimock\nunwinddrop n={n} clone={cl}\nend\n")
@@ -147,7 +147,7 @@ class Check:
                 if not mm:
                     spec_bad.append((n, f"unexpected line {line}"))
                 elif mm.group(2) or mm.group(3) != '77':
-                    spec_bad.append((n, f"a value configured with returns() for a borrowed return must be dropped exactly once, when the instance ends ({['drop', 'verify()', 'report()'][int(mm.group(1))]}): dropped before the end [{mm.group(2)}], after it [{mm.group(3)}]"))
+                    spec_bad.append((n, f"a value configured with returns() for a borrowed return must be dropped exactly once, when the instance ends ({['drop', 'verify()', 'report()', 'a failing verify()', 'a failing report()'][int(mm.group(1))]}): dropped before the end [{mm.group(2)}], after it [{mm.group(3)}]"))
                 continue
             if any(l.startswith('helper ') for l in r):
                 line = next(l for l in r if l.startswith('helper '))
